@@ -1661,11 +1661,11 @@ def net_stream(nm, focus_, rule_, qn, tn):
 
 
 STREAMS.update({
-    "netwire": net_stream("netwire", "wire", "one query per scenario: names from the nametext grammar (valid, max length, invalid), any type/class, RD, EDNS off/on x version x payload {512,1232,4096,65535}, caller buffer {100,511,512,513,1232,4096}, UDP and TCP-only; the scripted loopback server records every datagram and TCP byte. 4 clients round-robin.", 120, 2400),
+    "netwire": net_stream("netwire", "wire", "one query per scenario: names from the nametext grammar (valid, max length, invalid), any type/class, RD, EDNS off/on x version x payload {512,1232,4096,65535}, caller buffer {100,511,512,513,1232,4096}, UDP and TCP-only; the scripted loopback server records every datagram and TCP byte. 4 clients round-robin. MODEL SIDE: the extracted whole-call machine (TimedApi.v) on the same scenarios: refusals before anything is sent and the exact bytes of every datagram / of the TCP write vs the RFC layout.", 120, 2400),
     "udpfilter": net_stream("udpfilter", "udpfilter", "before the genuine response the server sends 0..12 datagrams of 14 non-matching kinds (empty, 5 and 11 bytes, random, id+1, id byte-swapped, one letter off, wrong type, wrong class, QDCOUNT 0/2, truncated question, header only, self-pointer name) 8 ms apart, then a matching one (genuine, case-flipped question, echoed query) or none, then more junk. 4 clients.", 96, 2000),
     "strategy": net_stream("strategy", "strategy", "3 strategies x {untruncated, truncated} UDP answers preceded by 0-4 ignored datagrams x TCP answers (whole, segmented, with trailing bytes) x 4 clients; the server records datagrams and TCP connections; every client also gets untruncated answers of exactly buf, buf-1 and more than buf octets (no TCP) and truncated answers with RCODE 1/2/3/5/11/15 (TCP under udp, returned as is under notcp).", 96, 1600),
     "tcpframe": net_stream("tcpframe", "tcpframe", "TCP-only: prefix+body split at 1-6 random points with 3-8 ms gaps, early close at 0,1,2,3,half,N,N+1,N+2 bytes, announced length around the caller buffer (buf-1, buf, buf+1, 65535), padded bodies at the buffer boundary, trailing garbage, zero-length body, caller buffers of 65536/66000/70000 octets x 4 clients.", 96, 2000),
-    "timing": net_stream("timing", "timing", "query_timeout 300 ms / none, lifetime 1050 ms: silence, answer after 1-3 timeouts, junk every 25 ms across whole attempts (then answer or silence), TCP stall after 0/1/5 bytes, TCP drip at 15/60 ms per byte x 4 clients; transmissions must come at multiples of the timeout (+-130 ms), identical, and the call must end by lifetime+250 ms; after 1-2 silent attempts a truncated answer then a TCP server that stalls before, inside or after the length prefix or accepts late; timing-only mismatches are a first prefix byte that arrives late and then nothing; a 450 ms pause (longer than query_timeout, inside the lifetime) after the prefix and mid-body; retried twice.", 96, 864),
+    "timing": net_stream("timing", "timing", "query_timeout 300 ms / none, lifetime 1050 ms: silence, answer after 1-3 timeouts, junk every 25 ms across whole attempts (then answer or silence), TCP stall after 0/1/5 bytes, TCP drip at 15/60 ms per byte x 4 clients; transmissions must come at multiples of the timeout (+-130 ms), identical, and the call must end by lifetime+250 ms; after 1-2 silent attempts a truncated answer then a TCP server that stalls before, inside or after the length prefix or accepts late; timing-only mismatches are a first prefix byte that arrives late and then nothing; a 450 ms pause (longer than query_timeout, inside the lifetime) after the prefix and mid-body; retried twice. MODEL SIDE: the extracted timed machines (Timed.v/TimedApi.v, exact timers) on the same scenarios and on 600 (thorough 6000) random scenarios with arrivals on and around the attempt/lifetime boundaries and TCP replies that trickle, pause or stall: bytes on the wire, transmissions, exchanges, result and end instant must equal the code-blind expectation exactly.", 96, 864),
     "history": net_stream("history", "history", "2-6 queries on one client object: raw and typed (A/AAAA/TXT), answered, timed out, refused for a bad name, truncated with oversized/short TCP answers, a malformed datagram followed by a large answer, async queries dropped mid-flight, with late responses to earlier queries delivered during later ones; each query must behave as on a fresh client; the same question asked three times with header-only / clipped / 11-octet / empty datagrams carrying the right id before the answer (stale bytes of the earlier answer must not complete them). 4 clients.", 64, 800),
 })
 
